@@ -29,7 +29,9 @@ pub enum Via {
 pub enum HOp {
     Observe(usize),
     /// local histogram: observe each digit locally, then flush (or drop, which flushes)
-    Batch { digits: Vec<usize>, by_drop: bool },
+    /// (`cloned`: a clone of the local handle is taken while the batch is pending and dropped at once;
+    /// a clone starts empty, so nothing may reach the histogram through it)
+    Batch { digits: Vec<usize>, by_drop: bool, cloned: bool },
     Snap(Via),
     GetCount,
     GetSum,
@@ -152,7 +154,7 @@ pub fn generate(rng: &mut Rng, job: &Job, min_snaps: usize) -> Scenario {
             match rng.below(10) {
                 0 | 1 if next + 3 < max_digits => {
                     let k = 2 + rng.usize_below(2);
-                    ops.push(HOp::Batch { digits: (next..next + k).collect(), by_drop: rng.chance(1, 3) });
+                    ops.push(HOp::Batch { digits: (next..next + k).collect(), by_drop: rng.chance(1, 3), cloned: rng.chance(1, 3) });
                     next += k;
                 }
                 2 => ops.push(HOp::GetCount),
@@ -293,13 +295,17 @@ pub fn execute(sc: &Scenario, job: &Job, case: u64) -> Execution {
                     let v = unit_f64(*j);
                     sinks.call(tid, || world.handle().observe(v), |_| HRec::Obs { mask: 1 << *j, batch: false });
                 }
-                HOp::Batch { digits, by_drop } => {
+                HOp::Batch { digits, by_drop, cloned } => {
                     let h = world.handle();
                     let l = h.local();
                     let mut mask = 0u64;
                     for j in digits {
                         l.observe(unit_f64(*j));
                         mask |= 1 << *j;
+                    }
+                    if *cloned {
+                        let c = l.clone();
+                        sinks.call(tid, move || drop(c), |_| HRec::Obs { mask: 0, batch: true });
                     }
                     if *by_drop {
                         sinks.call(tid, move || drop(l), |_| HRec::Obs { mask, batch: true });
@@ -429,6 +435,9 @@ pub fn check(sc: &Scenario, ex: &Execution) -> Vec<Finding> {
                 HRec::Obs { mask, batch } => (*mask, *batch),
                 _ => unreachable!(),
             };
+            if mask == 0 {
+                continue; // the dropped (empty) clone: nothing to find
+            }
             let got = m & mask;
             if got != 0 && got != mask {
                 out.push(fnd("flushed-batch-torn-in-snapshot", &s, format!("snapshot contains {:?} of the batch {:?}", mask_to_vec(got), mask_to_vec(mask)), true, true));
@@ -456,6 +465,9 @@ pub fn check(sc: &Scenario, ex: &Execution) -> Vec<Finding> {
                     HRec::Obs { mask, .. } => *mask,
                     _ => 0,
                 };
+                if mask == 0 {
+                    continue;
+                }
                 if m & mask == 0 {
                     if missing_earlier.is_none() {
                         missing_earlier = Some(mask);
@@ -556,6 +568,9 @@ fn check_sum_read(s: f64, r: &Rec<HRec>, obs: &[&Rec<HRec>], all_mask: u64, site
             HRec::Obs { mask, .. } => *mask,
             _ => 0,
         };
+        if mask == 0 {
+            continue;
+        }
         let got = m & mask;
         if got != 0 && got != mask {
             out.push(fnd("sample-sum-tears-a-batch", site, format!("get_sample_sum contains {:?} of batch {:?}", mask_to_vec(got), mask_to_vec(mask)), false, true));
